@@ -343,18 +343,31 @@ def update_facts(cls: ast.ClassDef, src: str) -> dict:
         raise Untranslatable("UpdateSupportMixin.update not found")
     phys = _target_probe(fn, "update")
     has_where = _has_kw(fn, "exp.Update", "where")
+    # SET key: the bare Python str (emitted unquoted: `SET full name = ...`) or an Identifier (quoted when needed)
+    key_ident = None
+    for n in ast.walk(fn):
+        if isinstance(n, ast.Call) and dotted(n.func) == "exp.EQ":
+            kw = {k.arg: k.value for k in n.keywords}
+            if dotted(kw.get("this")) == "key":
+                key_ident = False
+            elif isinstance(kw.get("this"), ast.Call) and dotted(kw["this"].func) == "exp.to_identifier" \
+                    and len(kw["this"].args) == 1 and dotted(kw["this"].args[0]) == "key" and not kw["this"].keywords:
+                key_ident = True
+    if key_ident is None:
+        raise Untranslatable("update: the SET target is neither `key` nor exp.to_identifier(key)")
+    key_txt = "exp.to_identifier(key)" if key_ident else "key"
     template = (
         "def update(self, set_, where=None):\n"
         f"    self_expr = {PHYS if phys else CTE_LEAF}\n"
         "    condition = self._ensure_where_condition(where)\n"
         "    update_set = self._ensure_and_normalize_update_set(set_)\n"
-        "    update_expr = exp.Update(this=self_expr, expressions=[exp.EQ(this=key, expression=val) "
+        f"    update_expr = exp.Update(this=self_expr, expressions=[exp.EQ(this={key_txt}, expression=val) "
         "for key, val in update_set.items()]"
         + (", where=exp.Where(this=condition)" if has_where else "") + ")\n"
         "    return LazyExpression(update_expr, self.session)\n")
     require_equal(fn, template, "UpdateSupportMixin.update")
     return {"target_is_phys": phys, "has_where": has_where, "decorated": _decorated_with_ensure_cte(fn),
-            "hash": py2v.src_hash(fn, src)}
+            "set_key_is_identifier": key_ident, "hash": py2v.src_hash(fn, src)}
 
 
 def delete_facts(cls: ast.ClassDef, src: str) -> dict:
@@ -505,6 +518,8 @@ def generate(repo: str):
          f"  {b(d['decorated'])}  (* ensure_cte_delete *)",
          f"  {build_calls}  (* build_session_calls *)",
          f"  {lz['execute_session_calls']}  (* execute_session_calls *).",
+         "(* the SET target handed to exp.EQ is an Identifier (quoted by the generator when the name needs it), not a bare str *)",
+         f"Definition set_key_is_identifier : bool := {b(u['set_key_is_identifier'])}.",
          ""]
     facts = [
         {"name": "none_is_true/list_op/where_requalifies/where_strips_alias/where_str_is_sql",
@@ -523,5 +538,6 @@ def generate(repo: str):
          "value": lz["execute_session_calls"]},
         {"name": "DuckDBTable bases", "from": "duckdb/table.py", "value": bases},
     ]
-    flags = {**{k: v for k, v in w.items() if k != "hash"}, **{k: v for k, v in s.items() if k != "hash"}}
+    flags = {**{k: v for k, v in w.items() if k != "hash"}, **{k: v for k, v in s.items() if k != "hash"},
+             "set_key_is_identifier": u["set_key_is_identifier"]}
     return "\n".join(L), facts, flags
